@@ -1,0 +1,10 @@
+//go:build !verif
+// +build !verif
+
+package spg
+
+// No-op verification hooks for ordinary builds (see verif_on.go).
+
+func verifOnDraw(n uint32) {}
+
+func verifCanon(chars charList) {}
